@@ -28,8 +28,8 @@ type Term struct {
 	// struct
 	FNames []string
 	// mapv: Args alternates key,value ; slicev: Args are elements
-	Cell *Cell     // ptr
-	Path []string  // ptr path inside the cell
+	Cell *Cell    // ptr
+	Path []string // ptr path inside the cell
 	Fn   *ssa.Function
 	Dyn  types.Type // iface: dynamic type
 	ID   int        // instance number of an impure call / fresh value
@@ -47,9 +47,9 @@ type Cell struct {
 }
 
 func mkConst(v constant.Value, t types.Type) *Term { return &Term{Op: "const", C: v, Typ: t} }
-func mkInt(n int64, t types.Type) *Term             { return mkConst(constant.MakeInt64(n), t) }
-func mkBool(b bool) *Term                           { return mkConst(constant.MakeBool(b), types.Typ[types.Bool]) }
-func mkNil(t types.Type) *Term                      { return &Term{Op: "const", Nil: true, Typ: t} }
+func mkInt(n int64, t types.Type) *Term            { return mkConst(constant.MakeInt64(n), t) }
+func mkBool(b bool) *Term                          { return mkConst(constant.MakeBool(b), types.Typ[types.Bool]) }
+func mkNil(t types.Type) *Term                     { return &Term{Op: "const", Nil: true, Typ: t} }
 
 func (t *Term) IsConst() bool { return t != nil && t.Op == "const" }
 func (t *Term) IsNilConst() bool {
@@ -482,8 +482,8 @@ func relString(r uint8) string {
 // ---------------------------------------------------------------------------------------
 
 type strFacts struct {
-	eq  *string
-	ne  map[string]bool
+	eq *string
+	ne map[string]bool
 }
 
 type PathState struct {
